@@ -100,6 +100,9 @@ void h_list(void)
 #ifdef LIST_FIX
     ASSUME(op == LIST_OP); op = LIST_OP;
     ASSUME(index == LIST_INDEX); index = LIST_INDEX;
+#ifdef LIST_ADD
+    ASSUME(add == LIST_ADD); add = LIST_ADD;
+#endif
 #endif
     ASSUME(index >= -1 && index <= LIST_ALLOC + 2);
     ASSUME(op >= 0 && op <= 4);
